@@ -219,9 +219,8 @@ def applyS (names : Names) (side : Nat) : SMod → Read → Info → Except Err 
       | .error e => .error e
       | .ok (rtr, rms, _) =>
         let info := if first then { info with original := { info.original with seq := readAfter.seq } } else info
-        let useRc := scoreSum rms > scoreSum fms
+        let useRc := !rms.isEmpty && scoreSum rms > scoreSum fms
         if useRc then
-          if rms.isEmpty then .error .assertion else
           let tr := if suffix then { rtr with name := rtr.name ++ bytesOfStr " rc" } else rtr
           .ok (tr, { info with isRc := some true, mts := info.mts ++ rms },
                Event.revComp :: Event.withAdapter side :: rms.map (fun m => Event.matched side m true))
